@@ -1,6 +1,7 @@
 package main
 
 import (
+	"runtime/debug"
 	"golang.org/x/tools/go/ssa"
 	"strconv"
 	"flag"
@@ -103,6 +104,15 @@ func cmdFn(repo string, names []string, verbose bool, timeout int) int {
 		return 2
 	}
 	ld.bindSpecial()
+	loadPinnedTables()
+	for _, name := range specs.Order {
+		if fn := ld.funcs[name]; fn != nil {
+			if want, ok := pinnedSigs[name]; ok && want != sigKey(fn) {
+				specs.Void[name] = true
+				fmt.Printf("%s: signature changed, contract void\n", name)
+			}
+		}
+	}
 	if len(names) == 0 {
 		names = specs.Order
 	}
@@ -232,6 +242,15 @@ func cmdStage2(args []string) int {
 }
 
 func init() {
+	if os.Getenv("GOVC_BIGTERM") != "" {
+		n := 0
+		bigTermHook = func(op string, size int) {
+			n++
+			if n <= 3 {
+				fmt.Fprintf(os.Stderr, "big term: op %s size %d\n%s\n", op, size, debug.Stack())
+			}
+		}
+	}
 	if os.Getenv("GOVC_PATHS") != "" {
 		debugPaths = true
 	}
